@@ -149,6 +149,9 @@ pub struct DefSig {
 pub struct FunProg {
     pub shadowed: String,
     pub unique: String,
+    /// the shadowed spelling with every binder that reuses a visible name renamed apart: pool
+    /// names (x0, a0, share_f_0 ...) stay, user-level shadowing is gone
+    pub deshadowed: String,
     pub args: Vec<i64>,
     pub has_shadowing: bool,
     pub size: usize,
@@ -303,8 +306,15 @@ impl<'a> G<'a> {
                     return E::Op(Box::new(a), op, Box::new(b));
                 }
                 if k < 78 {
-                    let c = self.pure(&T::I, sc, depth + 1);
-                    let snd = if self.rng.pct(50) { Some(Box::new(self.pure(&T::I, sc, depth + 1))) } else { None };
+                    let (c, snd) = if vars.len() >= 6 && self.rng.pct(50) {
+                        // two of the later variables (beyond the register file after translation)
+                        let a = vars[vars.len() - 1 - self.rng.below(3)];
+                        let b = vars[vars.len() - 1 - self.rng.below(3)];
+                        (E::Var(a), Some(Box::new(E::Var(b))))
+                    } else {
+                        let c = self.pure(&T::I, sc, depth + 1);
+                        (c, if self.rng.pct(50) { Some(Box::new(self.pure(&T::I, sc, depth + 1))) } else { None })
+                    };
                     let a = self.pure(&T::I, sc, depth + 1);
                     let b = self.pure(&T::I, sc, depth + 1);
                     return E::If(self.rng.below(6), Box::new(c), snd, Box::new(a), Box::new(b));
@@ -865,6 +875,70 @@ fn assign(e: &E, nm: &mut Namer, rng: &mut Rng, visible: &mut Vec<usize>, pct: u
     }
 }
 
+/// names for the third spelling: like `shad`, but a binder whose name is already visible gets a unique name
+fn deshadow(e: &E, shad: &Namer, out: &mut Namer, visible: &mut Vec<usize>) {
+    let mut bind = |id: usize, out: &mut Namer, visible: &Vec<usize>| {
+        let n = shad.names.get(&id).cloned().unwrap_or_else(|| format!("v{id}"));
+        let clash = visible.iter().any(|v| out.names.get(v).map(|s| *s == n).unwrap_or(false));
+        out.names.insert(id, if clash { format!("v{id}") } else { n });
+    };
+    match e {
+        E::Lit(_) | E::Var(_) => {}
+        E::Op(a, _, b) | E::Print(_, a, b) => {
+            deshadow(a, shad, out, visible);
+            deshadow(b, shad, out, visible);
+        }
+        E::If(_, c, s, a, b) => {
+            deshadow(c, shad, out, visible);
+            if let Some(s) = s {
+                deshadow(s, shad, out, visible);
+            }
+            deshadow(a, shad, out, visible);
+            deshadow(b, shad, out, visible);
+        }
+        E::Let(x, _, b, body) => {
+            deshadow(b, shad, out, visible);
+            bind(*x, out, visible);
+            visible.push(*x);
+            deshadow(body, shad, out, visible);
+            visible.pop();
+        }
+        E::Call(_, es) | E::Ctor(_, es) => es.iter().for_each(|e| deshadow(e, shad, out, visible)),
+        E::Case(s, _, cls) => {
+            deshadow(s, shad, out, visible);
+            for (_, ids, b) in cls {
+                for id in ids {
+                    bind(*id, out, visible);
+                    visible.push(*id);
+                }
+                deshadow(b, shad, out, visible);
+                visible.truncate(visible.len() - ids.len());
+            }
+        }
+        E::New(cls) => {
+            for (_, ids, b) in cls {
+                for id in ids {
+                    bind(*id, out, visible);
+                    visible.push(*id);
+                }
+                deshadow(b, shad, out, visible);
+                visible.truncate(visible.len() - ids.len());
+            }
+        }
+        E::Dtor(s, _, _, es) => {
+            deshadow(s, shad, out, visible);
+            es.iter().for_each(|e| deshadow(e, shad, out, visible));
+        }
+        E::Label(l, b) => {
+            bind(*l, out, visible);
+            visible.push(*l);
+            deshadow(b, shad, out, visible);
+            visible.pop();
+        }
+        E::Goto(_, b) | E::Exit(b) => deshadow(b, shad, out, visible),
+    }
+}
+
 fn lit_text(v: i64) -> String {
     if v == i64::MIN {
         "((-9223372036854775807) - 1)".into()
@@ -960,7 +1034,7 @@ pub fn generate(rng: &mut Rng, cfg: &FunCfg) -> FunProg {
     for i in 1..cfg.n_defs {
         let pure = g.rng.pct(55);
         let mut params = vec![(g.fresh(), T::I, false)];
-        let np = g.rng.below(if cfg.many_live { 7 } else { 4 });
+        let np = g.rng.below(if cfg.many_live { 11 } else { 4 });
         if g.rng.pct(30) {
             // several parameters of one data type: callers tend to pass the same variables repeatedly
             let t = loop {
@@ -974,7 +1048,7 @@ pub fn generate(rng: &mut Rng, cfg: &FunCfg) -> FunProg {
             }
         } else {
             for _ in 0..np {
-                let t = g.random_type(true, 0);
+                let t = if cfg.many_live && g.rng.pct(60) { T::I } else { g.random_type(true, 0) };
                 params.push((g.fresh(), t, false));
             }
         }
@@ -1000,17 +1074,21 @@ pub fn generate(rng: &mut Rng, cfg: &FunCfg) -> FunProg {
     // naming
     let mut unique = Namer { names: BTreeMap::new() };
     let mut shad = Namer { names: BTreeMap::new() };
+    let mut desh = Namer { names: BTreeMap::new() };
     let mut has_shadowing = false;
     let mut text_u = String::new();
     let mut text_s = String::new();
+    let mut text_d = String::new();
     let used_types: Vec<Decl> = g.lib.clone();
     for d in &used_types {
         text_u.push_str(&decl_text(d));
         text_s.push_str(&decl_text(d));
+        text_d.push_str(&decl_text(d));
     }
     let prelude = "\ndef repeat0(x: i64): Stream[i64] {\n  new { head => x, tail => repeat0(x) }\n}\n";
     text_u.push_str(prelude);
     text_s.push_str(prelude);
+    text_d.push_str(prelude);
     let mut total = 0;
     for (di, b) in &bodies {
         let sig = &sigs[*di];
@@ -1019,13 +1097,19 @@ pub fn generate(rng: &mut Rng, cfg: &FunCfg) -> FunProg {
         for (k, (id, _, _)) in sig.params.iter().enumerate() {
             unique.names.insert(*id, format!("v{id}"));
             let pn = ["n", "x", "y", "l", "a", "b", "z", "xs", "k"];
-            shad.names.insert(*id, if g.cfg.shadow_pct > 0 { pn[k % pn.len()].to_string() } else { format!("v{id}") });
+            let pname = if k < pn.len() { pn[k].to_string() } else { format!("{}{}", pn[k % pn.len()], k / pn.len()) };
+            shad.names.insert(*id, if g.cfg.shadow_pct > 0 { pname } else { format!("v{id}") });
             visible.push(*id);
         }
         let mut dummy = false;
         assign(b, &mut unique, g.rng, &mut visible.clone(), 0, &mut dummy);
-        assign(b, &mut shad, g.rng, &mut visible, g.cfg.shadow_pct, &mut has_shadowing);
-        for (nm, text) in [(&unique, &mut text_u), (&shad, &mut text_s)] {
+        assign(b, &mut shad, g.rng, &mut visible.clone(), g.cfg.shadow_pct, &mut has_shadowing);
+        for (id, _, _) in sig.params.iter() {
+            let n = shad.names.get(id).cloned().unwrap();
+            desh.names.insert(*id, n);
+        }
+        deshadow(b, &shad, &mut desh, &mut visible);
+        for (nm, text) in [(&unique, &mut text_u), (&shad, &mut text_s), (&desh, &mut text_d)] {
             let names = |i: usize| nm.names.get(&i).cloned().unwrap_or_else(|| format!("v{i}"));
             let ps: Vec<String> = sig
                 .params
@@ -1042,7 +1126,7 @@ pub fn generate(rng: &mut Rng, cfg: &FunCfg) -> FunProg {
             _ => g.rng.range(-5, 30),
         })
         .collect();
-    FunProg { shadowed: text_s, unique: text_u, args, has_shadowing, size: total }
+    FunProg { shadowed: text_s, unique: text_u, deshadowed: text_d, args, has_shadowing, size: total }
 }
 
 /// calls to the impossible definition (usize::MAX) are replaced by a literal-free fallback
